@@ -615,6 +615,11 @@ func (a *Analyzer) Feed(r *ev.Rec) {
 		if r.Kind == "unresponsive" {
 			a.find("C16", "node-unresponsive-after-failed-transfer", "", r.Q, "%s answered a leadership transfer with %q and 15 s later does not even report its status: the failed transfer left the node (and with it the cluster it still heartbeats) without a working leader", n.key, r.Err)
 		}
+	case "bounded-catch-up":
+		a.stat("bounded-catch-up:" + r.Kind)
+		if r.Kind == "never" {
+			a.find("C17", "reachable-node-not-brought-up-to-date", "not-brought-up-to-date:idle-non-voter-after-restart", r.Q, "cluster %d: non-voter %d was restarted while the cluster idles; 60 heartbeat timeouts later, with every node running and connected, its state machine still lacks the %d updates it had applied before (%s)", r.Cid, r.Nid, r.Cnt, r.Note)
+		}
 	case "bounded-election":
 		a.stat("bounded-election:" + r.Kind)
 		if r.Kind == "no-election" {
